@@ -7,7 +7,6 @@ type vfT00 struct {
 	h, w    int
 }
 
-
 type vfT01 struct {
 	s, g, e string
 	h, w    int
@@ -27,7 +26,7 @@ type vfT03 struct {
 	h, w    int
 }
 
-func (x *vfT03) String() string { return x.s }
+func (x *vfT03) String() string   { return x.s }
 func (x *vfT03) GoString() string { return x.g }
 
 type vfT04 struct {
@@ -43,7 +42,7 @@ type vfT05 struct {
 }
 
 func (x *vfT05) String() string { return x.s }
-func (x *vfT05) Error() string { return x.e }
+func (x *vfT05) Error() string  { return x.e }
 
 type vfT06 struct {
 	s, g, e string
@@ -51,16 +50,16 @@ type vfT06 struct {
 }
 
 func (x *vfT06) GoString() string { return x.g }
-func (x *vfT06) Error() string { return x.e }
+func (x *vfT06) Error() string    { return x.e }
 
 type vfT07 struct {
 	s, g, e string
 	h, w    int
 }
 
-func (x *vfT07) String() string { return x.s }
+func (x *vfT07) String() string   { return x.s }
 func (x *vfT07) GoString() string { return x.g }
-func (x *vfT07) Error() string { return x.e }
+func (x *vfT07) Error() string    { return x.e }
 
 type vfT08 struct {
 	s, g, e string
@@ -75,7 +74,7 @@ type vfT09 struct {
 }
 
 func (x *vfT09) String() string { return x.s }
-func (x *vfT09) Height() int { return x.h }
+func (x *vfT09) Height() int    { return x.h }
 
 type vfT10 struct {
 	s, g, e string
@@ -83,16 +82,16 @@ type vfT10 struct {
 }
 
 func (x *vfT10) GoString() string { return x.g }
-func (x *vfT10) Height() int { return x.h }
+func (x *vfT10) Height() int      { return x.h }
 
 type vfT11 struct {
 	s, g, e string
 	h, w    int
 }
 
-func (x *vfT11) String() string { return x.s }
+func (x *vfT11) String() string   { return x.s }
 func (x *vfT11) GoString() string { return x.g }
-func (x *vfT11) Height() int { return x.h }
+func (x *vfT11) Height() int      { return x.h }
 
 type vfT12 struct {
 	s, g, e string
@@ -100,7 +99,7 @@ type vfT12 struct {
 }
 
 func (x *vfT12) Error() string { return x.e }
-func (x *vfT12) Height() int { return x.h }
+func (x *vfT12) Height() int   { return x.h }
 
 type vfT13 struct {
 	s, g, e string
@@ -108,8 +107,8 @@ type vfT13 struct {
 }
 
 func (x *vfT13) String() string { return x.s }
-func (x *vfT13) Error() string { return x.e }
-func (x *vfT13) Height() int { return x.h }
+func (x *vfT13) Error() string  { return x.e }
+func (x *vfT13) Height() int    { return x.h }
 
 type vfT14 struct {
 	s, g, e string
@@ -117,18 +116,18 @@ type vfT14 struct {
 }
 
 func (x *vfT14) GoString() string { return x.g }
-func (x *vfT14) Error() string { return x.e }
-func (x *vfT14) Height() int { return x.h }
+func (x *vfT14) Error() string    { return x.e }
+func (x *vfT14) Height() int      { return x.h }
 
 type vfT15 struct {
 	s, g, e string
 	h, w    int
 }
 
-func (x *vfT15) String() string { return x.s }
+func (x *vfT15) String() string   { return x.s }
 func (x *vfT15) GoString() string { return x.g }
-func (x *vfT15) Error() string { return x.e }
-func (x *vfT15) Height() int { return x.h }
+func (x *vfT15) Error() string    { return x.e }
+func (x *vfT15) Height() int      { return x.h }
 
 type vfT16 struct {
 	s, g, e string
@@ -142,7 +141,7 @@ type vfT17 struct {
 	h, w    int
 }
 
-func (x *vfT17) String() string { return x.s }
+func (x *vfT17) String() string         { return x.s }
 func (x *vfT17) TerminalCellWidth() int { return x.w }
 
 type vfT18 struct {
@@ -150,7 +149,7 @@ type vfT18 struct {
 	h, w    int
 }
 
-func (x *vfT18) GoString() string { return x.g }
+func (x *vfT18) GoString() string       { return x.g }
 func (x *vfT18) TerminalCellWidth() int { return x.w }
 
 type vfT19 struct {
@@ -158,8 +157,8 @@ type vfT19 struct {
 	h, w    int
 }
 
-func (x *vfT19) String() string { return x.s }
-func (x *vfT19) GoString() string { return x.g }
+func (x *vfT19) String() string         { return x.s }
+func (x *vfT19) GoString() string       { return x.g }
 func (x *vfT19) TerminalCellWidth() int { return x.w }
 
 type vfT20 struct {
@@ -167,7 +166,7 @@ type vfT20 struct {
 	h, w    int
 }
 
-func (x *vfT20) Error() string { return x.e }
+func (x *vfT20) Error() string          { return x.e }
 func (x *vfT20) TerminalCellWidth() int { return x.w }
 
 type vfT21 struct {
@@ -175,8 +174,8 @@ type vfT21 struct {
 	h, w    int
 }
 
-func (x *vfT21) String() string { return x.s }
-func (x *vfT21) Error() string { return x.e }
+func (x *vfT21) String() string         { return x.s }
+func (x *vfT21) Error() string          { return x.e }
 func (x *vfT21) TerminalCellWidth() int { return x.w }
 
 type vfT22 struct {
@@ -184,8 +183,8 @@ type vfT22 struct {
 	h, w    int
 }
 
-func (x *vfT22) GoString() string { return x.g }
-func (x *vfT22) Error() string { return x.e }
+func (x *vfT22) GoString() string       { return x.g }
+func (x *vfT22) Error() string          { return x.e }
 func (x *vfT22) TerminalCellWidth() int { return x.w }
 
 type vfT23 struct {
@@ -193,9 +192,9 @@ type vfT23 struct {
 	h, w    int
 }
 
-func (x *vfT23) String() string { return x.s }
-func (x *vfT23) GoString() string { return x.g }
-func (x *vfT23) Error() string { return x.e }
+func (x *vfT23) String() string         { return x.s }
+func (x *vfT23) GoString() string       { return x.g }
+func (x *vfT23) Error() string          { return x.e }
 func (x *vfT23) TerminalCellWidth() int { return x.w }
 
 type vfT24 struct {
@@ -203,7 +202,7 @@ type vfT24 struct {
 	h, w    int
 }
 
-func (x *vfT24) Height() int { return x.h }
+func (x *vfT24) Height() int            { return x.h }
 func (x *vfT24) TerminalCellWidth() int { return x.w }
 
 type vfT25 struct {
@@ -211,8 +210,8 @@ type vfT25 struct {
 	h, w    int
 }
 
-func (x *vfT25) String() string { return x.s }
-func (x *vfT25) Height() int { return x.h }
+func (x *vfT25) String() string         { return x.s }
+func (x *vfT25) Height() int            { return x.h }
 func (x *vfT25) TerminalCellWidth() int { return x.w }
 
 type vfT26 struct {
@@ -220,8 +219,8 @@ type vfT26 struct {
 	h, w    int
 }
 
-func (x *vfT26) GoString() string { return x.g }
-func (x *vfT26) Height() int { return x.h }
+func (x *vfT26) GoString() string       { return x.g }
+func (x *vfT26) Height() int            { return x.h }
 func (x *vfT26) TerminalCellWidth() int { return x.w }
 
 type vfT27 struct {
@@ -229,9 +228,9 @@ type vfT27 struct {
 	h, w    int
 }
 
-func (x *vfT27) String() string { return x.s }
-func (x *vfT27) GoString() string { return x.g }
-func (x *vfT27) Height() int { return x.h }
+func (x *vfT27) String() string         { return x.s }
+func (x *vfT27) GoString() string       { return x.g }
+func (x *vfT27) Height() int            { return x.h }
 func (x *vfT27) TerminalCellWidth() int { return x.w }
 
 type vfT28 struct {
@@ -239,8 +238,8 @@ type vfT28 struct {
 	h, w    int
 }
 
-func (x *vfT28) Error() string { return x.e }
-func (x *vfT28) Height() int { return x.h }
+func (x *vfT28) Error() string          { return x.e }
+func (x *vfT28) Height() int            { return x.h }
 func (x *vfT28) TerminalCellWidth() int { return x.w }
 
 type vfT29 struct {
@@ -248,9 +247,9 @@ type vfT29 struct {
 	h, w    int
 }
 
-func (x *vfT29) String() string { return x.s }
-func (x *vfT29) Error() string { return x.e }
-func (x *vfT29) Height() int { return x.h }
+func (x *vfT29) String() string         { return x.s }
+func (x *vfT29) Error() string          { return x.e }
+func (x *vfT29) Height() int            { return x.h }
 func (x *vfT29) TerminalCellWidth() int { return x.w }
 
 type vfT30 struct {
@@ -258,9 +257,9 @@ type vfT30 struct {
 	h, w    int
 }
 
-func (x *vfT30) GoString() string { return x.g }
-func (x *vfT30) Error() string { return x.e }
-func (x *vfT30) Height() int { return x.h }
+func (x *vfT30) GoString() string       { return x.g }
+func (x *vfT30) Error() string          { return x.e }
+func (x *vfT30) Height() int            { return x.h }
 func (x *vfT30) TerminalCellWidth() int { return x.w }
 
 type vfT31 struct {
@@ -268,10 +267,10 @@ type vfT31 struct {
 	h, w    int
 }
 
-func (x *vfT31) String() string { return x.s }
-func (x *vfT31) GoString() string { return x.g }
-func (x *vfT31) Error() string { return x.e }
-func (x *vfT31) Height() int { return x.h }
+func (x *vfT31) String() string         { return x.s }
+func (x *vfT31) GoString() string       { return x.g }
+func (x *vfT31) Error() string          { return x.e }
+func (x *vfT31) Height() int            { return x.h }
 func (x *vfT31) TerminalCellWidth() int { return x.w }
 
 // vfMake returns an item of type number m holding the given texts, and a function that overwrites its fields.
